@@ -66,6 +66,10 @@ def is_url(
 
     if tld_aware:
         parsed = safe_urlsplit(string)
+
+        if not parsed.hostname:
+            return False
+
         if not has_valid_tld(parsed):
             return is_special_host(parsed.hostname)
 
